@@ -405,6 +405,139 @@ namespace sim
     ~elem_co (void) { reg_destroy (); }
   };
 
+  // ------------------------------------------------------------------ flavour MA
+  // nothrow move CONSTRUCTION but throwing move ASSIGNMENT (copyable, copies may throw):
+  // paths chosen by is_nothrow_move_constructible still contain throwing element operations.
+  template <int Tag = 0>
+  struct elem_ma : elem_core
+  {
+    static const bool copyable       = true;
+    static const bool move_throws    = false;
+    static const bool instrumented   = true;
+    static const bool lvalue_movable = true;
+    static const char *flavour (void) { return "MA"; }
+
+    elem_ma (void) { on_event (EV_CTOR_DEFAULT); value = 0; mf = 0; reg_construct (); }
+    explicit elem_ma (int v) { on_event (EV_CTOR_VALUE); value = v; mf = 0; reg_construct (); }
+    elem_ma (int a, int b) { on_event (EV_CTOR_VALUE); value = a + b; mf = 0; reg_construct (); }
+
+    elem_ma (const elem_ma& o)
+    {
+      on_event (EV_CTOR_COPY);
+      check_live (&o, "copy-constructed from");
+      log_elem (&o, EE_READ);
+      value = o.value; mf = o.mf;
+      reg_construct ();
+    }
+
+    elem_ma (elem_ma&& o) noexcept
+    {
+      on_event_nothrow (EV_CTOR_MOVE);
+      check_live (&o, "move-constructed from");
+      value = o.value; mf = o.mf;
+      o.value = MOVED_FROM_VALUE; o.mf = 1;
+      log_elem (&o, EE_MOVED_FROM);
+      reg_construct ();
+    }
+
+    elem_ma&
+    operator= (const elem_ma& o)
+    {
+      on_event (EV_ASSIGN_COPY);
+      check_live (this, "assigned to");
+      check_live (&o, "copy-assigned from");
+      log_elem (&o, EE_READ);
+      log_elem (this, EE_ASSIGNED_TO);
+      value = o.value; mf = o.mf;
+      return *this;
+    }
+
+    elem_ma&
+    operator= (elem_ma&& o)
+    {
+      on_event (EV_ASSIGN_MOVE);
+      check_live (this, "assigned to");
+      check_live (&o, "move-assigned from");
+      log_elem (this, EE_ASSIGNED_TO);
+      if (this != &o)
+      {
+        value = o.value; mf = o.mf;
+        o.value = MOVED_FROM_VALUE; o.mf = 1;
+        log_elem (&o, EE_MOVED_FROM);
+      }
+      return *this;
+    }
+
+    ~elem_ma (void) { reg_destroy (); }
+  };
+
+  // ------------------------------------------------------------------ flavour NC
+  // everything about the element is noexcept (copy and move construction and assignment), like
+  // a reference-counted handle, but it has a non-trivial destructor: the only exceptions come
+  // from the allocator, the caller's iterators / generator and the int -> element constructor.
+  template <int Tag = 0>
+  struct elem_nc : elem_core
+  {
+    static const bool copyable       = true;
+    static const bool move_throws    = false;
+    static const bool instrumented   = true;
+    static const bool lvalue_movable = true;
+    static const char *flavour (void) { return "NC"; }
+
+    elem_nc (void) noexcept { on_event_nothrow (EV_CTOR_DEFAULT); value = 0; mf = 0; reg_construct (); }
+    explicit elem_nc (int v) { on_event (EV_CTOR_VALUE); value = v; mf = 0; reg_construct (); }
+    elem_nc (int a, int b) { on_event (EV_CTOR_VALUE); value = a + b; mf = 0; reg_construct (); }
+
+    elem_nc (const elem_nc& o) noexcept
+    {
+      on_event_nothrow (EV_CTOR_COPY);
+      check_live (&o, "copy-constructed from");
+      log_elem (&o, EE_READ);
+      value = o.value; mf = o.mf;
+      reg_construct ();
+    }
+
+    elem_nc (elem_nc&& o) noexcept
+    {
+      on_event_nothrow (EV_CTOR_MOVE);
+      check_live (&o, "move-constructed from");
+      value = o.value; mf = o.mf;
+      o.value = MOVED_FROM_VALUE; o.mf = 1;
+      log_elem (&o, EE_MOVED_FROM);
+      reg_construct ();
+    }
+
+    elem_nc&
+    operator= (const elem_nc& o) noexcept
+    {
+      on_event_nothrow (EV_ASSIGN_COPY);
+      check_live (this, "assigned to");
+      check_live (&o, "copy-assigned from");
+      log_elem (&o, EE_READ);
+      log_elem (this, EE_ASSIGNED_TO);
+      value = o.value; mf = o.mf;
+      return *this;
+    }
+
+    elem_nc&
+    operator= (elem_nc&& o) noexcept
+    {
+      on_event_nothrow (EV_ASSIGN_MOVE);
+      check_live (this, "assigned to");
+      check_live (&o, "move-assigned from");
+      log_elem (this, EE_ASSIGNED_TO);
+      if (this != &o)
+      {
+        value = o.value; mf = o.mf;
+        o.value = MOVED_FROM_VALUE; o.mf = 1;
+        log_elem (&o, EE_MOVED_FROM);
+      }
+      return *this;
+    }
+
+    ~elem_nc (void) { reg_destroy (); }
+  };
+
   // ------------------------------------------------------------------ flavour SW
   // nothrow move construction and assignment, but a user-provided ADL swap that may throw:
   // is_nothrow_swappable<T> is false although both moves are noexcept.
